@@ -180,6 +180,18 @@ func debugDump(p *Prog, what string) {
 				}
 			}
 		}
+	case strings.HasPrefix(what, "ret:"):
+		n := strings.TrimPrefix(what, "ret:")
+		for _, f := range p.AllFuncs() {
+			if n == "*" && isFillFamily(f) || qname(f) == n {
+				rs := p.retSummary(f)
+				ex := "-"
+				if rs.exact != nil {
+					ex = rs.exact.String()
+				}
+				fmt.Printf("%-40s lower=%v exact=%s nonnil=%v\n", qname(f), rs.lower, ex, rs.nonNil)
+			}
+		}
 	case strings.HasPrefix(what, "ssa:"):
 		n := strings.TrimPrefix(what, "ssa:")
 		for _, f := range p.AllFuncs() {
